@@ -12,6 +12,7 @@ import Ctrmml.Proofs.TrackBuilder
 import Ctrmml.Proofs.TieGroup
 import Ctrmml.Proofs.Mml
 import Ctrmml.Proofs.ReaderLine
+import Ctrmml.Proofs.ReaderExt
 import Ctrmml.Spec.MmlMeaning
 namespace Ctrmml.C05
 open Ctrmml Ctrmml.Tables Ctrmml.Lexer Ctrmml.TrackBuilder Ctrmml.Mml
@@ -616,7 +617,9 @@ Covered commands (`Covered`): notes `a`..`h` with accidental and duration, `r`, 
 every duration form: none, dots, length, `:frames`, decimal or `$` hexadecimal), `o n`, `<`, `>`,
 `Q n`, `q n`, `C n`, `s n`, `&` (when it finds its note).  NOT covered: `R`, `~`, `\`, `\=`, `_…`,
 `k`, `V…`, `D`, `%`, the event commands of `mml_control` / `mml_envelope` (`[ / ] L * @ v ( ) p K E M P G t T`),
-`|`, `'…'`, `{/}` — for those the reader rests on the correspondence check. -/
+`|`, `'…'`, `{/}` — for those the reader rests on the correspondence check.  (Round T: `R ~ \ \= D %`,
+`_n __n kn` and the one-number event commands are covered by the section "extended command set"
+at the end of this file.) -/
 
 open Ctrmml.MmlMeaning (Num Dur Acc Cmd bodyBytes)
 
@@ -705,6 +708,127 @@ example :
     eventsOfLine (strBytes "A o2147483647 c") = [{ type := ev_NOTE, param := -24, on := 24, off := 0 }] ∧
     eventsOfLine (strBytes "A o-2147483647 < c") = [{ type := ev_NOTE, param := -12, on := 24, off := 0 }] ∧
     eventsOfLine (strBytes "A o2147483647 >> c") = [{ type := ev_NOTE, param := 0, on := 24, off := 0 }] := by
+  decide +kernel
+
+/-! ## reader layer, extended command set (round T)
+
+`Proofs/ReaderExt`, on top of C06's `Proofs/LayoutCmd` / `Proofs/LayoutLine` (`LCovered`,
+`lcmd_step`, `parse_toks`).  Extended set `ECovered`: the covered subset above, the reverse rest `R`,
+the grace note `~`, drum mode `D n`, the event commands `[ L` (no number), `] ( )` (optional number),
+`* @ v p K E M P G t T _ __ k %` (mandatory number), and the echo commands `\` + duration and
+`\=delay,volume`.  The commands are served by three tables (`mml_basic`, `mml_control`,
+`mml_envelope`) and, for `%`, by `parse_mml_track` itself, so the statement is about ONE ITERATION OF
+`parse_mml_track` with the cursor on the command's first byte.  Still NOT covered: `V…`, `_{…}` / `k{…}`
+(key signatures), `'…'`, `|`-free layouts aside (`|`, blanks and comments are C06's), `/`, `{/}`. -/
+
+open Ctrmml.MmlMeaning (Simple)
+
+/-- every command of the extended set, its canonical spelling at the cursor followed by ANY tail
+that satisfies the command's look-ahead condition `ECmdTail`:
+(1) when its numbers are in range (and, for `& R ~`, the builder accepts: `ECmdNums`), one iteration
+of `parse_mml_track` stamps the track with the cursor position, performs exactly the command's
+builder call(s) `ecmdTrack` (for `~`: `reverse_rest` then `add_note`; for `\=`: `clear_echo_buffer`
+unless the delay is negative, then `set_echo`), leaves the cursor behind the spelling (`ecmdSkip`:
+blanks skipped while looking for an unwritten number) and changes nothing else;
+(2) for `R` / `~` whose `reverse_rest` the builder refuses, the run ends with the `InputError`
+"unable to backtrack" (no note to shorten) / "previous note is not long enough" (`rrMsg`) whose
+position is the cursor behind the command; no note is added. -/
+theorem C05_command_span_ext (f : Nat) (s : MmlState) (hs : Sane s) (cmd : Cmd) (tail : List Nat) (hc : ECovered cmd)
+    (hsuf : suffix s = cmd.bytes ++ tail) (ht : ECmdTail cmd tail) :
+    (ECmdNums (getTrack s).strip cmd →
+      parseMmlTrackF (f + 1) s =
+        parseMmlTrackF f (adv (setTrack s (ecmdTrack ((getTrack s).setReference (some { line := s.inp.line, column := s.inp.lb.column })) cmd))
+          (cmd.bytes.length + ecmdSkip cmd tail))) ∧
+    (∀ d, (cmd = .revRest d ∨ ∃ l a, cmd = .grace l a d) → DurNums d →
+      ((getTrack s).strip.reverseRest (UInt16.ofNat (durVal (getTrack s).strip d).toNat)).2 ≠ .done →
+      ∃ t', parseMmlTrackF (f + 1) s = .err
+        (.input (rrMsg ((getTrack s).strip.reverseRest (UInt16.ofNat (durVal (getTrack s).strip d).toNat)).2)
+          { line := s.inp.line, column := s.inp.lb.column + (cmd.bytes.length + ecmdSkip cmd tail) })
+        (adv (setTrack s t') (cmd.bytes.length + ecmdSkip cmd tail))) :=
+  ⟨fun hn => ecmd_step f s hs cmd tail hc hsuf hn ht,
+   fun d hcmd hn hne => ecmd_step_refused f s hs cmd tail hc hsuf ht d hcmd hn hne⟩
+
+/-- non-vacuity: `R8` behind a quarter note is accepted, on a fresh track it is refused with
+"unable to backtrack", `R4` behind an eighth with "previous note is not long enough"; the tail
+conditions hold at the end of a line -/
+example :
+    ECovered (.revRest (.len { v := 8 } 0)) ∧ ECmdTail (.revRest (.len { v := 8 } 0)) [] ∧
+    ECmdNums ((Track.new).addNote 0 24).strip (.revRest (.len { v := 8 } 0)) ∧
+    rrMsg ((Track.new).strip.reverseRest (UInt16.ofNat (durVal (Track.new).strip (.len { v := 8 } 0)).toNat)).2 = "unable to backtrack" ∧
+    rrMsg (((Track.new).addNote 0 12).strip.reverseRest (UInt16.ofNat (durVal ((Track.new).addNote 0 12).strip (.len { v := 4 } 0)).toNat)).2 =
+      "previous note is not long enough" :=
+  ⟨trivial, (show DurTail (.len { v := 8 } 0) [] from durTail_lsepTail _ [] (Or.inl rfl)),
+   (show DurNums (.len { v := 8 } 0) ∧ _ from ⟨⟨⟨by decide, by decide⟩, by decide⟩, by decide +kernel⟩), by decide +kernel, by decide +kernel⟩
+
+/-- … and `\=-2,$10` (negative delay: the echo buffer is kept), `\:3` satisfy the hypotheses -/
+example :
+    ECmdNums Track.new (.echoSet { v := -2 } { v := 16, hex := true }) ∧ ECmdTail (.echoSet { v := -2 } { v := 16, hex := true }) [] ∧
+    ECmdNums Track.new (.echo (.frames { v := 3 } 0)) ∧ ECmdTail (.echo (.frames { v := 3 } 0)) [] :=
+  ⟨(show NumRange _ ∧ NumRange _ from ⟨⟨by decide, by decide⟩, ⟨by decide, by decide⟩⟩),
+   (show NumEnd (numBase { v := 16, hex := true }) [] from numEnd_lsepTail _ (by decide) [] (Or.inl rfl)),
+   (show DurNums (.frames { v := 3 } 0) from ⟨⟨by decide, by decide⟩, by decide⟩),
+   (show DurTail (.frames { v := 3 } 0) [] ∧ _ ∧ _ from ⟨durTail_lsepTail _ [] (Or.inl rfl), by decide, by decide⟩)⟩
+
+/-- the look-ahead condition of every command of `LCovered` holds on canonical lines (end of the
+line, or one space and the first byte of a command of the extended set) -/
+theorem C05_command_span_ext_canonical (t : Track) (cmd : Cmd) (tail : List Nat) (hc : LCovered cmd)
+    (hn : LCmdNums t cmd) (ht : LSepTail tail) : ECmdTail cmd tail := by
+  cases cmd <;> first
+    | exact lcmdTail_lsepTail t _ tail hn ht
+    | exact absurd hc (by simp [LCovered, Covered])
+
+example : LSepTail (32 :: (Cmd.simple .ins (some { v := 5 })).bytes) := Or.inr ⟨64, _, rfl, by simp [LCmdStart]⟩
+
+/-- whole canonical lines over `LCovered` (the extended set without the echo commands):
+`parse_mml_track` on the body `c₁ c₂ … cₙ` ends with the track that, up to source references
+(`Track.strip`: the `reference` field and the `ref` of every event), is the result of the builder
+calls of the commands in order (`runCmds`); only the cursor and the current track change (`Moved`);
+in particular the events are those of the call sequence.  With the model's own fuel, and with any
+fuel above the length of the body.
+Extra hypotheses / weaker conclusion (hence `_partial`): `CmdsOk` — every command is in `LCovered`,
+its numbers are in range on the track it meets and `& R ~` are accepted there; the conclusion is
+modulo source references (the exact references of the covered subset are in
+`C05_parse_render_partial`); `\` and `\=` are covered per command only (`C05_command_span_ext`). -/
+theorem C05_parse_render_ext_partial (cmds : List Cmd) (s : MmlState) (hs : Sane s) (hsuf : suffix s = bodyBytes cmds)
+    (hn : CmdsOk (getTrack s).strip cmds) :
+    (∃ s', parseMmlTrack s = .ok () s' ∧ Moved s s' ∧ (getTrack s').strip = runCmds (getTrack s).strip cmds ∧
+      (getTrack s').getEvents = (runCmds (getTrack s).strip cmds).getEvents) ∧
+    (∀ f, (bodyBytes cmds).length + 1 ≤ f → ∃ s', parseMmlTrackF f s = .ok () s' ∧ Moved s s' ∧
+      (getTrack s').strip = runCmds (getTrack s).strip cmds) := by
+  refine ⟨?_, fun f hf => parse_body_ext cmds f s hs hsuf hn hf⟩
+  obtain ⟨s', h1, h2, h3⟩ := parse_track_body_ext cmds s hs hsuf hn
+  exact ⟨s', h1, h2, h3, by rw [← h3, Track.strip_getEvents]⟩
+
+/-- the full statement is `C05_full_statement_parse_render` above -/
+example : CmdsOk (Track.new).strip
+    [.note 2 .none (.dflt 0), .revRest (.len { v := 8 } 0), .grace 3 .none (.len { v := 16 } 0), .simple .loopStart none,
+     .simple .ins (some { v := 5 }), .drum { v := 1 }] :=
+  ⟨(by decide : 2 < 8), trivial,
+   trivial, ⟨⟨⟨by decide, by decide⟩, by decide⟩, by decide +kernel⟩,
+   (by decide : 3 < 8), ⟨⟨⟨by decide, by decide⟩, by decide⟩, by decide +kernel⟩,
+   trivial, trivial,
+   trivial, ⟨by decide, by decide⟩,
+   trivial, ⟨by decide, by decide⟩, trivial⟩
+
+/-- error of reading one line of text -/
+def errOfLine (text : List Nat) : Option Err :=
+  match readLines 0 [text] MmlState.init with
+  | .ok _ _ => none
+  | .err e _ => some e
+
+/-- the same commands end to end through `readLines` (the check replays these lines on the real
+code): `c R8 ~d16` leaves 6 + 6 ticks, `\=1,2 \` is an echo rest between two relative volumes, and
+the refusals carry the column behind the command -/
+example :
+    eventsOfLine (strBytes "A c R8 ~d16 \\=1,2 \\ [ e ]3 @5 D1") =
+      [{ type := ev_NOTE, param := 60, on := 6, off := 0 }, { type := ev_NOTE, param := 62, on := 6, off := 0 },
+       { type := ev_VOL_REL, param := -2, on := 0, off := 0 }, { type := ev_REST, param := 0, on := 0, off := 24 },
+       { type := ev_VOL_REL, param := 2, on := 0, off := 0 }, { type := ev_LOOP_START, param := 0, on := 0, off := 0 },
+       { type := ev_NOTE, param := 64, on := 24, off := 0 }, { type := ev_LOOP_END, param := 3, on := 0, off := 0 },
+       { type := ev_INS, param := 5, on := 0, off := 0 }, { type := ev_DRUM_MODE, param := 1, on := 0, off := 0 }] ∧
+    errOfLine (strBytes "A R") = some (.input "unable to backtrack" { line := 0, column := 3 }) ∧
+    errOfLine (strBytes "A c8 R4") = some (.input "previous note is not long enough" { line := 0, column := 7 }) ∧
+    errOfLine (strBytes "A c8 ~d4") = some (.input "previous note is not long enough" { line := 0, column := 8 }) := by
   decide +kernel
 
 end Ctrmml.C05
